@@ -23,7 +23,8 @@ EXPLANATION = (
     "advertised OBSERVATION_SIZE equals the sum of the part sizes read from jaxtyping annotations. C02.7 the reset state itself (which no clip() "
     "has seen): under the default configuration the literal range initial() draws from, pushed through observation(), lies inside the declared "
     "bounds (interval evaluation over literals and constructor defaults). NOT decided: membership along "
-    "trajectories, NaN/finiteness, dtypes, action_space.sample (C14)."
+    "trajectories, NaN/finiteness, dtypes in general, action_space.sample (C14). C02.9 decides one dtype clause: the state / observation producers of the "
+    "classic-control family and the base classes never pin a bit width (the declared Boxes carry the platform default)."
 )
 ASSUMPTIONS = [
     "configuration attributes are non-negative where used as symmetric bounds (max_speed, max_vel_*)",
@@ -797,5 +798,28 @@ def check(s):
     # (max_steps, a tighter tolerance, throw on event) makes a valid action raise for the configurations that need more solver work
     from .C17 import check_integration
     check_integration(s, "C02.8")
-    for r_, n_ in (("C02.1", 14), ("C02.2", 80), ("C02.3", 300), ("C02.4", 20), ("C02.5", 60), ("C02.6", 20), ("C02.7", 17)):
+    # ---------------------------------------------------------------- C02.9 "shape and dtype": the declared Boxes carry the platform's default float
+    # width (float32, float64 under 64-bit mode), and so do initial states; the functions that produce states and observations
+    # (initial, dynamics, clip, transition, observation - of the classic-control family and of the base classes) must therefore not pin
+    # a bit width: a state cast to jnp.float32 is a non-member of the float64 space it is declared in, and its auto-reset cond over
+    # (fresh float64 state, stepped float32 state) does not trace, so a valid action is rejected
+    from ..effects import pinned_width_literals
+    PRODUCERS = ("initial", "dynamics", "clip", "transition", "observation", "reset", "step")
+    n9 = 0
+    for m in sorted(s.prog.modules.values(), key=lambda m_: m_.name):
+        if not (m.name.startswith("lerax.env.classic_control") or m.name == "lerax.env.base_env"):
+            continue
+        for ci in m.classes.values():
+            for mname in PRODUCERS:
+                fn = ci.methods.get(mname)
+                if fn is None:
+                    continue
+                n9 += 1
+                pins = pinned_width_literals(fn)
+                s.ob("C02.9", f"{ci.name}.{mname}", not pins, "states and observations are produced at the platform's default width (the width of the declared spaces), never cast to a pinned one",
+                     s.prog.loc(m, fn), key="pinned-width", detail="; ".join(pins[:3]), necessary_for="every observation has the dtype of the declared observation space in every configuration; sampled actions are accepted")
+    if pinned_width_literals(ast.parse("def transition(self, state):\n    return state.y.astype(jnp.float32)\n")) == []:
+        raise AnalysisError("C02.9: the positive control (astype(jnp.float32)) is not recognised")
+    s.controls.append("C02.9 positive control: .astype(jnp.float32) in a synthetic transition is recognised as a pinned width")
+    for r_, n_ in (("C02.9", 20), ("C02.1", 14), ("C02.2", 80), ("C02.3", 300), ("C02.4", 20), ("C02.5", 60), ("C02.6", 20), ("C02.7", 17)):
         s.floor(r_, n_)
